@@ -89,7 +89,7 @@ def run(ctx):
     ctx.stage("E1 vetting")
 
     jobs = []
-    for i in range(1200 if thorough else 320):
+    for i in range(2500 if thorough else 800):
         big = rng.random() < 0.5
         nobj = rng.randint(6, 10) if big else rng.randint(3, 6)
         ot = gen.random_bin_shape(rng, nobj)
@@ -115,8 +115,10 @@ def run(ctx):
         single = all(s == (1,) for u, s in enumerate(inp["syn"], start=1) if u in proj.leaves_of(inp["ot"]))
         m = dict(mins)
         if m["oe"] < 0:      # ordered solvers not run on the large inputs: neutral values
-            m["oe"], m["ob"] = m["ue"], m["ub"]
-            single = False
+            if single:       # the single-family clause then relates the unordered optima to DTL / LCA
+                m["oe"], m["ob"] = m["thl"], m["lca"]
+            else:
+                m["oe"], m["ob"] = m["ue"], m["ub"]
         events.append({"op": "agree", "in": sc.sinput_json(inp), "single": single, "hgtinf": inp["c"]["hgt"] >= INF,
                        "mins": m})
         if len(inp["ot"]) >= 5:
